@@ -652,4 +652,118 @@ theorem step (fnl : Bool) : ∀ ls : List Str, (∀ l ∈ ls, NoNl l) →
       · rw [hsem true, ← hsem false]
         exact genA _ _ (badStart_headNot_indent hbs) hP (fun r hr => by rw [hsem] at hr; cases hr)
 
+/-! ### 5. the theorems -/
+
+/-- the strict reader in terms of `semR` -/
+theorem readStrict_semR (s : Str) (c : List (List (Str × Str))) :
+    (∃ t, readStrict s = .ok t ∧ docItems t = c) ↔ semR (lex s) = some c := by
+  unfold readStrict parse parseTokens semR mk
+  simp only []
+  by_cases h : (rootLoop (lex s)).errs = []
+  · simp [h, docItems_root]
+  · have : (rootLoop (lex s)).errs.isEmpty = false := by simpa using h
+    simp [h, this]
+
+theorem semR_render (ls : List Str) (fnl : Bool) (h : ∀ l ∈ ls, NoNl l) :
+    semR (lex (render (ls.map .raw) fnl)) = lenient ls := by
+  have : lex (render (ls.map .raw) fnl) = toks ls fnl := lex_render ls fnl h
+  rw [this, (step fnl ls h).1, lenient_sem]
+
+/-- **C03, exact acceptance set at line level.** For EVERY list `ls` of LF/CR-free lines, rendered
+    with or without a final newline: the strict lossless reader accepts the text and exposes the
+    content `c` (paragraphs, field names in order, values) iff `ls` is in the lenient grammar with
+    content `c` — the grammar of C03 plus (a) a white-space-only line or an indented `#` line
+    directly after a field / continuation / such line (adds nothing, keeps the paragraph open) and
+    (b) blanks between a field name and its colon -/
+theorem C03_accept_iff_lenient (ls : List Str) (fnl : Bool) (h : ∀ l ∈ ls, NoNl l)
+    (c : List (List (Str × Str))) :
+    (∃ t, readStrict (render (ls.map .raw) fnl) = .ok t ∧ docItems t = c) ↔ lenient ls = some c := by
+  rw [readStrict_semR, semR_render ls fnl h]
+
+/-- **acceptance on the code's full accepted language** (the "if" direction with the tolerant reader):
+    every line list of the lenient grammar is accepted by the strict reader with exactly the content
+    the grammar assigns, and the tolerant reader returns the same tree without error -/
+theorem C03_accept_lenient (ls : List Str) (fnl : Bool) (h : ∀ l ∈ ls, NoNl l)
+    (c : List (List (Str × Str))) (hc : lenient ls = some c) :
+    ∃ t, readStrict (render (ls.map .raw) fnl) = .ok t ∧ docItems t = c
+      ∧ readRelaxed (render (ls.map .raw) fnl) = (t, []) := by
+  obtain ⟨t, ht, htc⟩ := (C03_accept_iff_lenient ls fnl h c).2 hc
+  refine ⟨t, ht, htc, ?_⟩
+  unfold readStrict at ht
+  split at ht
+  · rename_i he
+    simp only [Except.ok.injEq] at ht
+    simp only [readRelaxed, ht, Prod.mk.injEq, true_and]
+    simpa using he
+  · cases ht
+
+/-- **C03, exact rejection set at line level**: the strict reader fails — equivalently the tolerant
+    reader reports at least one error — iff the line list is outside the lenient grammar. In
+    particular a line that is neither field, continuation, comment nor blank makes the strict reader
+    fail EXCEPT in the cases (a), (b) of `C03_accept_iff_lenient`, wherever it stands -/
+theorem C03_reject_exact (ls : List Str) (fnl : Bool) (h : ∀ l ∈ ls, NoNl l) :
+    ((∀ t, readStrict (render (ls.map .raw) fnl) ≠ .ok t) ↔ lenient ls = none)
+    ∧ ((readRelaxed (render (ls.map .raw) fnl)).2 ≠ [] ↔ lenient ls = none) := by
+  have key : (parse (render (ls.map .raw) fnl)).errors ≠ [] ↔ lenient ls = none := by
+    rw [← semR_render ls fnl h]
+    unfold parse parseTokens semR mk
+    simp only []
+    by_cases he : (rootLoop (lex (render (ls.map .raw) fnl))).errs = [] <;> simp [he]
+  refine ⟨?_, by simpa [readRelaxed] using key⟩
+  rw [← key]
+  constructor
+  · intro hr he
+    exact hr _ (readStrict_of_no_errors _ he)
+  · intro he
+    exact (readers_of_parse_error _ he).2
+
+/-- **the same line list with and without final newline** is accepted or rejected alike, with the
+    same content -/
+theorem C03_final_newline_irrelevant (ls : List Str) (h : ∀ l ∈ ls, NoNl l) (c : List (List (Str × Str))) :
+    (∃ t, readStrict (render (ls.map .raw) true) = .ok t ∧ docItems t = c)
+      ↔ (∃ t, readStrict (render (ls.map .raw) false) = .ok t ∧ docItems t = c) := by
+  rw [C03_accept_iff_lenient ls true h, C03_accept_iff_lenient ls false h]
+
+/-! ### non-vacuity -/
+
+/-- nine lines: a comment, a spaced-colon field, a white-space-only line inside the value, a
+    continuation line, an indented `#` line, a second field, a blank line, a second paragraph -/
+def exLenient : List Str :=
+  ["# lead".toList, "Source : foo".toList, " \t".toList, " :x é".toList, "  #c".toList, "A:".toList,
+   "".toList, "Package:\tbar".toList]
+
+example : ∀ l ∈ exLenient, NoNl l := by decide
+
+example : lenient exLenient
+    = some [[("Source".toList, "foo\n:x é".toList), ("A".toList, [])], [("Package".toList, "bar".toList)]] := by
+  decide +kernel
+
+/-- `C03_accept_iff_lenient` fires on a text that is outside the grammar of C03 (three lenient lines) -/
+example : ∃ t, readStrict "# lead\nSource : foo\n \t\n :x é\n  #c\nA:\n\nPackage:\tbar".toList = .ok t
+    ∧ docItems t
+      = [[("Source".toList, "foo\n:x é".toList), ("A".toList, [])], [("Package".toList, "bar".toList)]] := by
+  have := (C03_accept_iff_lenient exLenient false (by decide) _).2 (by decide +kernel :
+    lenient exLenient = some [[("Source".toList, "foo\n:x é".toList), ("A".toList, [])],
+      [("Package".toList, "bar".toList)]])
+  have e : render (exLenient.map .raw) false
+      = "# lead\nSource : foo\n \t\n :x é\n  #c\nA:\n\nPackage:\tbar".toList := by decide
+  rwa [e] at this
+
+/-- `C03_reject_exact` fires: the white-space-only line after the blank line puts the list outside the
+    lenient grammar -/
+example : ∀ t, readStrict "A: b\n\n \nC: d\n".toList ≠ .ok t := by
+  have := (C03_reject_exact ["A: b".toList, "".toList, " ".toList, "C: d".toList] true (by decide)).1.2
+    (by decide +kernel)
+  have e : render (["A: b".toList, "".toList, " ".toList, "C: d".toList].map .raw) true
+      = "A: b\n\n \nC: d\n".toList := by decide
+  rwa [e] at this
+
+/-- and in the other direction: an accepted text is inside the lenient grammar -/
+example : lenient ["A: b".toList, " ".toList, "C: d".toList]
+    = some [[("A".toList, "b".toList), ("C".toList, "d".toList)]] := by
+  obtain ⟨⟨t, h1, h2⟩, _⟩ := C03_wsline_continues
+  have e : render (["A: b".toList, " ".toList, "C: d".toList].map .raw) true = "A: b\n \nC: d\n".toList := by
+    decide
+  exact (C03_accept_iff_lenient _ true (by decide) _).1 ⟨t, by rw [e]; exact h1, h2⟩
+
 end Deb822Verif.Props.C03Lenient
